@@ -51,6 +51,10 @@ def cases(ctx):
         yield {"kind": "links", "seed": rng.getrandbits(32), "feats": rng.choice(subs), "nfiles": rng.randint(2, 8)}
     for i in range(ctx.per_shard(ctx.pick(8, 600))):
         yield {"kind": "dotdot", "seed": rng.getrandbits(32), "feats": rng.choice(subs), "nfiles": rng.randint(1, 5)}
+    for i in range(ctx.per_shard(ctx.pick(10, 800))):
+        yield {"kind": "relpath", "seed": rng.getrandbits(32), "feats": rng.choice(subs)}
+    for i in range(ctx.per_shard(ctx.pick(2, 48))):
+        yield {"kind": "locale", "seed": rng.getrandbits(32)}
     for i in range(ctx.per_shard(ctx.pick(2, 48))):
         yield {"kind": "fdlimit", "seed": rng.getrandbits(32), "nfiles": rng.choice([60, 90])}
     for i in range(ctx.per_shard(ctx.pick(12, 1200))):
@@ -192,6 +196,10 @@ def check_case(ctx, case):
             return _links(ctx, case, nc, wd)
         if case["kind"] == "dotdot":
             return _dotdot(ctx, case, nc, wd)
+        if case["kind"] == "relpath":
+            return _relpath(ctx, case, nc, wd)
+        if case["kind"] == "locale":
+            return _locale(ctx, case, nc, wd)
         if case["kind"] == "fdlimit":
             return _fdlimit(ctx, case, nc, wd)
         raise HarnessError("unknown kind")
@@ -640,6 +648,102 @@ def _dotdot(ctx, case, nc, wd):
         ctx.violation(case, "unexpected-path-written", "%s: written next to the link instead of next to its target: %r" % (tag, stray[:3]))
         return
     ctx.distinct(("dotdot", case["seed"], tuple(feats)))
+
+
+def _relpath(ctx, case, nc, wd):
+    """Short RELATIVE input and output names whose text comes back further down the tree (-i cfg with a directory old-cfg
+    and a file cfg.txt in it; -i . with a directory v1.2): every output sits at the input's relative path under the output root."""
+    rng = random.Random(case["seed"])
+    opts = make_opts(rng)
+    feats = case["feats"]
+    iname, oname = rng.choice([("cfg", "anon"), (".", "out"), ("in", "o"), ("a", "b"), ("cfg/", "anon/")])
+    root = os.path.join(wd, "cwd")
+    os.makedirs(root)
+    base = iname.rstrip("/")
+    rels = ["r1.cfg", "old-%s/r2.cfg" % (base if base != "." else "x"), "%s/%s.txt" % (base if base != "." else "v1.2", base if base != "." else "v1.2"),
+            "v1.2/%s-r3.cfg" % (base if base != "." else "n"), "sub/%s/r4.cfg" % (base if base != "." else "y.z")]
+    src_abs = os.path.normpath(os.path.join(root, iname))
+    for i, rel in enumerate(rels):
+        p = os.path.join(src_abs, rel)
+        os.makedirs(os.path.dirname(p), exist_ok=True)
+        with open(p, "w") as fh:
+            fh.write("hostname r%d\n ip address 11.22.%d.4 255.255.255.0\nenable password Pw%dx%d\n" % (i, i, rng.getrandbits(20), i))
+    old = os.getcwd()
+    os.chdir(root)
+    try:
+        w, errs, exc = run_files(nc, iname, oname, opts, feats)
+    finally:
+        os.chdir(old)
+    ctx.ev()
+    ctx.count("trees_run")
+    ctx.count("relative_path_runs")
+    tag = "cwd-relative -i %r -o %r, feats=%s" % (iname, oname, "+".join(feats))
+    if exc is not None or errs:
+        ctx.violation(case, "run-failed-on-relative-paths", "%s: %r %r" % (tag, exc, errs[:2]))
+        return
+    out_abs = os.path.normpath(os.path.join(root, oname))
+    got = sorted(k for k, v in fsmon.snapshot(out_abs).items() if v[0] == "file")
+    want = sorted(rels) if iname != "." else None
+    if want is None:
+        # -i . : the output directory lies inside the input; everything that was there before must have its output
+        got = [g for g in got]
+        want = sorted(rels)
+    if got != want:
+        ctx.violation(case, "output-missing" if set(want) - set(got) else "unexpected-path-written",
+                      "%s: outputs %r, expected %r" % (tag, got[:6], want[:6]))
+        return
+    stray = [k for k, v in fsmon.snapshot(root).items() if v[0] == "file" and not (k.startswith(os.path.relpath(out_abs, root) + os.sep))
+             and os.path.normpath(os.path.join(root, k)) not in [os.path.join(src_abs, r) for r in rels]]
+    if stray:
+        ctx.violation(case, "unexpected-path-written", "%s: files outside the output root: %r" % (tag, stray[:4]))
+        return
+    ctx.distinct(("relpath", iname, case["seed"]))
+
+
+_LOCALE_CHILD = """
+import io, os, sys
+from netconan.anonymize_files import FileAnonymizer, anonymize_files
+src, d = sys.argv[1], sys.argv[2]
+res = []
+for name, run in (("file", lambda o: FileAnonymizer(True, True, "s").anonymize_file(src, o)), ("files", lambda o: anonymize_files(src, o, True, True, salt="s"))):
+    o = os.path.join(d, "out_" + name)
+    try:
+        run(o)
+    except Exception as e:
+        res.append("raised")
+        continue
+    res.append(open(o, "rb").read().hex() if os.path.exists(o) and os.path.getsize(o) else "no-output")
+print(res[0] == res[1] or {res[0], res[1]} == {"raised", "no-output"}, res[0][:16], res[1][:16])
+"""
+
+
+def _locale(ctx, case, nc, wd):
+    """A child interpreter in the C locale without UTF-8 mode, on a file with non-ASCII text: whatever the single-file and
+    the directory entry point make of it, they make the same of it (both write the same bytes, or both give up)."""
+    import subprocess
+    import sys
+
+    rng = random.Random(case["seed"])
+    src = os.path.join(wd, "in.cfg")
+    with open(src, "wb") as fh:
+        fh.write("hostname z\u00fcrich-gw\n description caf\u00e9 \u4e0a\u8054\n ip address 11.22.33.44 255.255.255.0\nenable password Qz7Lm2Kp\n".encode("utf-8"))
+    env = load.child_env(rng.randint(1, 9999))
+    env.update({"LC_ALL": "C", "LANG": "C", "PYTHONUTF8": "0", "PYTHONCOERCECLOCALE": "0"})
+    env.pop("PYTHONIOENCODING", None)
+    p = subprocess.run([sys.executable, "-c", _LOCALE_CHILD, src, wd], env=env, capture_output=True, text=True, timeout=300)
+    ctx.ev()
+    ctx.count("trees_run")
+    ctx.count("c_locale_runs")
+    ctx.count("cli_child_processes")
+    ctx.count("entry_point_comparisons")
+    line = (p.stdout.strip().splitlines() or [""])[-1]
+    if p.returncode != 0 or not line.startswith(("True", "False")):
+        raise HarnessError("locale child failed: rc=%s %s" % (p.returncode, p.stderr[-300:]))
+    if line.startswith("False"):
+        ctx.violation(case, "entry-points-disagree:c-locale", "in the C locale (no UTF-8 mode) anonymize_file and anonymize_files treat a file with "
+                      "non-ASCII text differently: %s" % line)
+        return
+    ctx.distinct(("locale", case["seed"]))
 
 
 _FD_CHILD = """
